@@ -53,7 +53,7 @@ var propertyConfigs = map[string]*propertyConfig{
 		Assumptions: append(append([]string{}, engineBAssumptions...), "scales are compared and converted by TRUSTED leaves whose outcome is NAMED by uninterpreted functions of the scale's contents (cmpval, uf_scale64, uf_msb0/1): the contracts say which branch a comparison selects and which factors are applied, not what the factors are",
 			"Ring.MulScalar, MulScalarThenAdd / ThenSub, DivRoundByLastModulusNTT, Scale.Mul / Div and the big-integer scalar products are TRUSTED abstract leaves (ring-element reading of the row-level contracts of C01 / C02)",
 			"NOT decided: anything about programs (noise budget, exactness after decoding), the value of the scale-matching factors and of the recorded scale after scale matching, relinearisation, multiply-then-add, the scale-invariant (BFV) style, the scale recorded by a product, plaintext and vector operands, the VALUE of a rescaled component (rounded division is not a ring operation)"),
-		Trusted:     stdTrusted,
+		Trusted:     stdTrusted, Simple: copyAndLanes("C05"),
 	},
 	"C06": {
 		ID: "C06", Packages: []string{"./..."}, Level: "proof",
@@ -64,7 +64,7 @@ var propertyConfigs = map[string]*propertyConfig{
 		Assumptions: append(append([]string{}, engineBAssumptions...), "the outcome of comparing two scales is NAMED (cmpval), not interpreted: the contracts cover the branch for equal scales",
 			"the conversion of a scalar to RNS form (bigComplexToRNSScalar), the row operation with a scalar (evaluateWithScalar), Scale.Mul / Div and the rounded divisions are TRUSTED abstract leaves",
 			"NOT decided: everything numerical (approximation error, precision, noise), operands at different scales (integer ratio rescaling), the VALUE of the scale recorded by a product or a rescale, relinearisation, rotations, plaintext and vector operands, programs"),
-		Trusted:     stdTrusted,
+		Trusted:     stdTrusted, Simple: copyAndLanes("C06"),
 	},
 	"C20": {
 		ID: "C20", Packages: []string{"./..."}, Level: "proof",
@@ -72,7 +72,7 @@ var propertyConfigs = map[string]*propertyConfig{
 			"BOUNDED instances (one ragged gadget shape, loops unwound; reported under coverage.bounded, never counted as proved): AddLazy (ciphertext operand), MulByXPowAlphaMinusOneLazy, MulByXPowAlphaMinusOneThenAddLazy and Reduce act component by component on both gadget matrices and both bases - 24 ring identities each (\"RGSW ciphertexts add and multiply by X^a - 1 as their plaintexts do\").",
 		Assumptions: append(append([]string{}, engineBAssumptions...), "the inner products of the external product (externalProductInPlaceSinglePAndBitDecomp, externalProductInPlaceMultipleP) and the division by P (ModDownQPtoQNTT) are TRUSTED leaves that write their outputs only; what they compute is named, not interpreted (their digit arithmetic is under the contracts of C02)",
 			"NOT decided: that the external product decrypts to m*g, every noise bound, the 32-bit fast path, RGSW encryption, blind rotation (accumulator loop, test polynomial, key generation), plaintext operands of AddLazy"),
-		Trusted:     stdTrusted,
+		Trusted:     stdTrusted, Simple: copyAndLanes("C20"),
 	},
 	"C04": {
 		ID: "C04", Packages: []string{"./..."}, Level: "proof",
@@ -81,7 +81,7 @@ var propertyConfigs = map[string]*propertyConfig{
 			"Automorphism (coefficient domain): the automorphism (NAMED uf_autom) of both components of the key switch with the Galois key of the element (NAMED uf_gk); CheckAndGetGaloisKey hands out that key.",
 		Assumptions: append(append([]string{}, engineBAssumptions...), "the gadget product, the automorphism of a ring element and the key-set accessors are TRUSTED leaves that write their outputs only; what they compute is named, not interpreted (digit arithmetic: contracts of C02; automorphism tables: C01 / C11)",
 			"NOT decided: that the result decrypts to the transformed plaintext, every noise bound, switching between ring degrees, the NTT branch of Automorphism, the hoisted and lazy variants, extract / repack, compressed keys"),
-		Trusted:     stdTrusted,
+		Trusted:     stdTrusted, Simple: copyAndLanes("C04"),
 	},
 	"C14": {
 		ID: "C14", Packages: []string{"./..."}, Level: "proof",
